@@ -6,9 +6,9 @@ for id in $ids; do
   d=/verif/seeded/$id
   git -C /repo diff --quiet || { echo "/repo is dirty, refusing"; exit 2; }
   git -C /repo apply $d/patch.diff || { echo "$id: PATCH DOES NOT APPLY"; continue; }
-  out=$(cd /verif && VERIF_SEED=${VERIF_SEED:-1} ./bin/vcheck $id --tier quick 2>&1); rc=$?
+  prop=${id:0:3}; out=$(cd /verif && VERIF_SEED=${VERIF_SEED:-1} ./bin/vcheck $prop --tier quick 2>&1); rc=$?
   git -C /repo checkout -- .
-  if echo "$out" | grep -q "VIOLATION property=$id" && [ $rc -eq 1 ]; then
+  if echo "$out" | grep -q "VIOLATION property=$prop" && [ $rc -eq 1 ]; then
     echo "$id: CAUGHT  $(echo "$out" | grep -m1 '^violation class' | cut -c1-160)"
   else
     echo "$id: MISSED (exit $rc) $(echo "$out" | grep -m1 'HARNESS\|harness' | cut -c1-120)"
